@@ -134,6 +134,23 @@ class Impl:
                 b2 = b""
             elif kind == "append":
                 b2 = b + b"\n"
+            elif kind == "cr_insert":
+                k = b.find(b"\n", pos)
+                k = k if k >= 0 else b.find(b"\n")
+                b2 = b[:k] + b"\r" + b[k:]
+            elif kind == "crlf":
+                b2 = b.replace(b"\n", b"\r\n")
+            elif kind == "bom":
+                b2 = b"\xef\xbb\xbf" + b
+            elif kind == "trailing_space":
+                k = b.find(b"\n", pos)
+                k = k if k >= 0 else b.find(b"\n")
+                b2 = b[:k] + b" " + b[k:]
+            elif kind == "case":
+                # upper-case one hex digit of a recorded digest (same value for a case-insensitive comparison)
+                import re as _re
+                m = _re.search(rb">([0-9a-f]*[a-f][0-9a-f]*)<", b)
+                b2 = b[: m.start(1)] + m.group(1).upper() + b[m.end(1) :] if m else b + b" "
             else:
                 raise ValueError(kind)
             st = os.stat(fp)
